@@ -157,6 +157,11 @@ def run(ctx):
             counter = Counter()
             for v in vals:
                 counter[v] = rng.choice([1, 1, 2, 3, 5, 8])
+            if rep == 0 and enc.lower().replace('-', '') == 'utf8':
+                # whatever the seed: the most frequent value - the first line of the file - begins with U+FEFF (a character of the value,
+                # not a byte order mark), another consists of it alone
+                vals = ['\ufeffbom', 'plain', '\ufeff', 'in\ufeffside']
+                counter = Counter({'\ufeffbom': 9, 'plain': 4, '\ufeff': 2, 'in\ufeffside': 1})
             path = os.path.join(root, 'vals.txt')
             out = io.StringIO()
             with contextlib.redirect_stdout(out):
